@@ -29,11 +29,17 @@ Theorem C09_min_of_sub : forall chk n ws,
   exists s v, Subseq s ws /\ length s = pred n /\ hand_rank_value chk ws = Ok v /\ hand_rank_value chk s = Ok v.
 Proof. exact min_now. Qed.
 
+(* non-vacuity: a seven, six of its cards in another order, five of those *)
 Example C09_example :
-  hand_rank_value false [layout 0 0; layout 12 3; layout 11 3; layout 1 1; layout 10 3; layout 9 3; layout 8 3] = Ok 1 /\
-  hand_rank_value false [layout 12 3; layout 11 3; layout 1 1; layout 10 3; layout 9 3; layout 8 3] = Ok 1 /\
-  hand_rank_value false [layout 12 3; layout 11 3; layout 1 1; layout 10 3; layout 9 3] = Ok 6192.
-Proof. repeat split; vm_compute; reflexivity. Qed.
+  HandN 7 [layout 0 0; layout 12 3; layout 11 3; layout 1 1; layout 10 3; layout 9 3; layout 8 3] /\
+  incl [layout 8 3; layout 12 3; layout 11 3; layout 1 1; layout 10 3; layout 9 3]
+       [layout 0 0; layout 12 3; layout 11 3; layout 1 1; layout 10 3; layout 9 3; layout 8 3] /\
+  NoDup [layout 8 3; layout 12 3; layout 11 3; layout 1 1; layout 10 3; layout 9 3].
+Proof.
+  split; [apply handN_b; vm_compute; reflexivity|]. split.
+  - intros x Hx. cbn [In] in *. vm_compute in Hx. vm_compute. tauto.
+  - apply Base.Reflect.nodupb_NoDup. vm_compute. reflexivity.
+Qed.
 
 Print Assumptions C09_chain.
 Print Assumptions C09_monotone.
